@@ -291,6 +291,13 @@ Theorem C13_fill_geometry_den_tr : forall (Tr P : Type) (tr_eqb : Tr -> Tr -> bo
   make_cells_tr tr_eqb fuel fd fg ts key cell elts st acc = Ok (ks, st') ->
   wf act st' /\ text st st' /\
   exists news, ks = acc ++ news /\
+    (* the record of each new cell: universe of the container, no FILL, the filler's
+       material and provenance + (innermost filler, outermost container) - the same
+       for the four flag combinations; only its geometry depends on them *)
+    Forall2 (fun k' e => exists ec, lookup e (tcells st') = Some ec /\
+                                    lookup k' (tcells st') = Some (filled_cell key cell e ec
+                                       (cgeom (match lookup k' (tcells st') with Some c => c | None => cell end))))
+            news elts /\
     forall senv D, sem act st' senv D ->
       Forall2 (fun k' e => forall p, D k' p = D key p && D e (fold_right act p ts)) news elts.
 Proof. intros Tr P tr_eqb act H. exact (make_cells_tr_den tr_eqb act H). Qed.
